@@ -1224,6 +1224,7 @@ static void x_gen(prng_t *r, int mode, plan_t *p)
 {
     p->cfg[CF_FAR] = FAR_OF_INDEX();      /* element blocks 2^32 or 3 * 2^31 bytes apart in one run in seven each */
     p->cfg[CF_DECL] = DECL_OF_INDEX();    /* one run in five starts from the initializer macros */
+    p->cfg[CF_REUSE] = REUSE_OF_INDEX();  /* one run in six: the allocator hands a freed block out again at once */
     int longrun = mode != 16 && prng_chance(r, 1, 10), small = !longrun && prng_chance(r, 1, 5);
     int budget = longrun ? 300 + (int)prng_below(r, 1200) : small ? 3 + (int)prng_below(r, 7) : 12 + (int)prng_below(r, 50);
     uint64_t maxb = longrun ? 512 : small ? 4 : 32;
